@@ -35,7 +35,7 @@ def _work(i, conn, timeout, seed):
             ok, detail = ratfun.prove(o)
             conn.send(("discharged" if ok else "unknown", time.time() - t0, "ratfun", detail))
             return
-        to = int(by.get("timeout", timeout))
+        to = int(timeout)       # already includes the obligation's own budget (by["timeout"]) and the load factor, see discharge()
         if o.expect == "sat":
             s = _solver_for(o, min(to, 5000), seed)
             r = s.check()
@@ -58,6 +58,10 @@ def _work(i, conn, timeout, seed):
         pref = by.get("prefer")
         if pref:
             variants.sort(key=lambda x: 0 if x[0].endswith(pref) else 1)
+        hint = _hints().get(o.id)
+        if hint:
+            # the encoding that discharged this obligation on the unchanged tree goes first (ordering only)
+            variants.sort(key=lambda x: 0 if x[0] == hint else 1)
         notes = []
         built = {}
         # two passes: a short budget for every encoding first (most obligations need milliseconds in the right encoding), then the full one
@@ -101,6 +105,21 @@ def _work(i, conn, timeout, seed):
         conn.send(("error", time.time() - t0, "z3", f"{type(exc).__name__}: {exc}"))
     finally:
         conn.close()
+
+
+_HINTS = None
+
+
+def _hints():
+    global _HINTS
+    if _HINTS is None:
+        import json
+        try:
+            with open(os.path.join(os.path.dirname(os.path.dirname(__file__)), "contracts", "variant_hints.json")) as fh:
+                _HINTS = json.load(fh)
+        except (FileNotFoundError, ValueError):
+            _HINTS = {}
+    return _HINTS
 
 
 _NL = {}
@@ -256,6 +275,7 @@ def discharge(obls, timeout=None, retry=True, use_cvc5=True, progress=None):
     global _OBLS
     timeout = timeout or DEFAULT_TIMEOUT
     _OBLS = obls
+    _hints()          # loaded once in the parent, inherited by the forked workers
     ctx = mp.get_context("fork")
     pending = [i for i in range(len(obls)) if not getattr(obls[i], "presolved", False)]
     running = {}
@@ -265,6 +285,11 @@ def discharge(obls, timeout=None, retry=True, use_cvc5=True, progress=None):
         parent, child = ctx.Pipe(duplex=False)
         seed = 0 if attempt[i] == 0 else 7919
         to = timeout if attempt[i] == 0 else timeout * 2
+        own = (obls[i].by or {}).get("timeout")
+        if own:
+            to = max(to, int(own * float(os.environ.get("HDCV_LOAD_SCALE", "1"))))
+        if (obls[i].by or {}).get("backend") == "ratfun":
+            to = to * 4         # sympy normal forms are CPU-bound (7-20 s unloaded): a generous wall-clock limit, no verdict depends on it
         p = ctx.Process(target=_work, args=(i, child, to, seed))
         p.start()
         child.close()
@@ -284,7 +309,14 @@ def discharge(obls, timeout=None, retry=True, use_cvc5=True, progress=None):
                 done.append((i, res))
             elif not p.is_alive():
                 p.join()
-                done.append((i, ("error", time.time() - t0, "z3", "worker died")))
+                # the worker may have exited right after sending: look into the pipe again before calling it dead
+                if conn.poll(0.5):
+                    try:
+                        done.append((i, conn.recv()))
+                    except EOFError:
+                        done.append((i, ("error", time.time() - t0, "z3", "worker died")))
+                else:
+                    done.append((i, ("error", time.time() - t0, "z3", "worker died")))
             elif time.time() - t0 > (to / 1000.0 * 1.3 + 1.5) * (2 + 2 * len(getattr(obls[i], 'alternatives', []))) + 20:
                 p.kill()
                 p.join()
@@ -294,8 +326,8 @@ def discharge(obls, timeout=None, retry=True, use_cvc5=True, progress=None):
             o = obls[i]
             v, t, be, detail = res
             o.time += t
-            if v in ("unknown", "error") and retry and attempt[i] == 0 and (o.by or {}).get("backend") != "ratfun" \
-                    and not getattr(o, "alternatives", None):
+            if retry and attempt[i] == 0 and (v == "error" or (v == "unknown" and (o.by or {}).get("backend") != "ratfun"
+                                                                and not getattr(o, "alternatives", None))):
                 attempt[i] = 1
                 o.detail = f"first attempt: {v} ({detail}); "
                 pending.append(i)
@@ -316,3 +348,55 @@ def discharge(obls, timeout=None, retry=True, use_cvc5=True, progress=None):
                 if r == "unsat":
                     o.verdict, o.backend = "discharged", "cvc5"
     return obls
+
+
+def cross_check(obls, budget_s=600, per_query_ms=10000, jobs=12):
+    """Second opinion on discharged obligations: the plain SMT-LIB text of each one is given to cvc5 1.0.3.
+    -> {"attempted", "confirmed_unsat", "undecided", "unsupported", "disagree": [ids]}.  `undecided` (timeout / unknown) and
+    `unsupported` (z3-only syntax such as multi-index arrays or lambdas) say nothing; `disagree` means cvc5 answered `sat`."""
+    from concurrent.futures import ThreadPoolExecutor
+    cand = [o for o in obls if o.expect != "sat" and o.verdict == "discharged" and (o.backend or "").startswith("z3") and not getattr(o, "presolved", False)]
+    t0 = time.time()
+    texts = []
+    for o in cand:
+        if time.time() - t0 > budget_s / 4:
+            break
+        try:
+            texts.append((o, "(set-logic ALL)\n" + smt2_text(o)))       # text generation uses the z3 API: main thread only
+        except Exception:
+            continue
+
+    def run(item):
+        o, txt = item
+        if time.time() - t0 > budget_s:
+            return o, "skipped"
+        with tempfile.NamedTemporaryFile("w", suffix=".smt2", delete=False) as fh:
+            fh.write(txt)
+            path = fh.name
+        try:
+            p = subprocess.run(["/usr/bin/cvc5", f"--tlimit={per_query_ms}", path], capture_output=True, text=True, timeout=per_query_ms / 1000 + 10)
+            out = (p.stdout.strip().splitlines() or ["unknown"])[0]
+            return o, out
+        except Exception:
+            return o, "unknown"
+        finally:
+            os.unlink(path)
+
+    with ThreadPoolExecutor(jobs) as ex:
+        res = list(ex.map(run, texts))
+    out = {"solver": "cvc5 1.0.3", "candidates": len(cand), "attempted": 0, "confirmed_unsat": 0, "undecided": 0, "unsupported": 0, "disagree": [],
+           "seconds": 0.0}
+    for o, r in res:
+        if r == "skipped":
+            continue
+        out["attempted"] += 1
+        if r == "unsat":
+            out["confirmed_unsat"] += 1
+        elif r == "sat":
+            out["disagree"].append(o.id)
+        elif r.startswith("(error"):
+            out["unsupported"] += 1
+        else:
+            out["undecided"] += 1
+    out["seconds"] = round(time.time() - t0, 1)
+    return out
